@@ -546,4 +546,185 @@ theorem WF_sys (threads : List (List Op)) : WF rank (sys threads) := by
   exact WFp_compile op
 
 
+/-! ## application threads: LDM calls made while holding the application mutex `lkApp` -/
+
+/-- the locks a program acquires -/
+def acqs : List (Instr LSt) → List Lock
+  | [] => []
+  | .acq l :: p => l :: acqs p
+  | .rel _ :: p => acqs p
+  | .blk _ :: p => acqs p
+
+theorem acqs_append (p q : List (Instr LSt)) : acqs (p ++ q) = acqs p ++ acqs q := by
+  induction p with
+  | nil => rfl
+  | cons i p ih => cases i <;> simp [acqs, ih]
+
+theorem mem_acqs_flatten (ps : List (List (Instr LSt))) (l : Lock) (h : l ∈ acqs ps.flatten) : ∃ p ∈ ps, l ∈ acqs p := by
+  induction ps with
+  | nil => simp [acqs] at h
+  | cons p r ih =>
+    simp only [List.flatten_cons, acqs_append, List.mem_append] at h
+    rcases h with h | h
+    · exact ⟨p, by simp, h⟩
+    · obtain ⟨q, hq, hl⟩ := ih h
+      exact ⟨q, List.mem_cons_of_mem _ hq, hl⟩
+
+/-- **framing a well-bracketed program by an outer lock**: a program that is well bracketed from `held` stays so when
+the thread additionally holds `l` throughout, provided every lock it acquires ranks above `l`; afterwards `q` runs
+with exactly `l` held -/
+theorem WFp_frame (rank : Lock → Nat) (l : Lock) (p q : List (Instr LSt)) (held : List Lock)
+    (hp : WFp rank held p) (hacq : ∀ a ∈ acqs p, rank l < rank a) (hq : WFp rank [l] q) :
+    WFp rank (held ++ [l]) (p ++ q) := by
+  induction p generalizing held with
+  | nil => simp only [WFp] at hp; subst hp; simpa using hq
+  | cons i p ih =>
+    cases i with
+    | acq a =>
+      have ha : rank l < rank a := hacq a (by simp [acqs])
+      refine ⟨?_, ?_⟩
+      · intro h hh
+        rcases List.mem_append.mp hh with h1 | h1
+        · exact hp.1 h h1
+        · simp only [List.mem_cons, List.not_mem_nil, or_false] at h1; subst h1; exact ha
+      · exact ih (a :: held) hp.2 (fun b hb => hacq b (by simp [acqs, hb]))
+    | rel a =>
+      refine ⟨List.mem_append_left _ hp.1, ?_⟩
+      rw [List.erase_append_left _ hp.1]
+      exact ih (held.erase a) hp.2 (fun b hb => hacq b (by simpa [acqs] using hb))
+    | blk f => exact ih held hp (fun b hb => hacq b (by simpa [acqs] using hb))
+
+theorem acqs_replicate (n : Nat) (p : List (Instr LSt)) (l : Lock) (h : l ∈ acqs (List.replicate n p).flatten) : l ∈ acqs p := by
+  obtain ⟨q, hq, hl⟩ := mem_acqs_flatten _ l h
+  rw [List.mem_replicate] at hq
+  rw [← hq.2]; exact hl
+
+/-- an LDM operation other than an attendance pass takes LDM locks only (the maintenance-thread lock, the service
+lock, the database lock) – never the application mutex -/
+theorem acqs_compile (op : Op) (h : op.isAttend = false) : ∀ a ∈ acqs (compile op), rank lkApp < rank a := by
+  intro a ha
+  cases op with
+  | attend o n => cases h
+  | deregC o a' n =>
+    simp only [compile, compileT, List.map_append, acqs_append, List.mem_append] at ha
+    rcases ha with ((ha | ha) | ha) | ha
+    · simp [tsect, TI.erase, acqs] at ha; subst ha; decide
+    · simp [tsect, TI.erase, acqs] at ha; subst ha; decide
+    · rw [List.map_flatten, List.map_replicate] at ha
+      have := acqs_replicate n _ a ha
+      simp [tsect, TI.erase, acqs] at this; subst this; decide
+    · simp [TI.erase, acqs] at ha
+  | gc o n =>
+    simp only [compile, compileT, List.map_append, acqs_append, List.mem_append] at ha
+    rcases ha with (((ha | ha) | ha) | ha) | ha
+    · simp [tsect, TI.erase, acqs] at ha; subst ha; decide
+    · simp [tsect, TI.erase, acqs] at ha; subst ha; decide
+    · rw [List.map_flatten, List.map_replicate] at ha
+      have := acqs_replicate n _ a ha
+      simp [gcIter, tsect, TI.erase, acqs] at this; subst this; decide
+    · simp [tsect, TI.erase, acqs] at ha; subst ha; decide
+    · simp [tsect, TI.erase, acqs] at ha; subst ha; decide
+  | updMt o i v =>
+    simp [compile, compileT, tsect, TI.erase, acqs] at ha
+    rcases ha with rfl | rfl | rfl | rfl | rfl <;> decide
+  | _ =>
+    simp [compile, compileT, tsect, TI.erase, acqs] at ha
+    first
+      | (subst ha; decide)
+      | (rcases ha with rfl | rfl <;> decide)
+      | (rcases ha with rfl | rfl | rfl <;> decide)
+      | (rcases ha with rfl | rfl | rfl | rfl <;> decide)
+
+theorem WFp_threadProg (ops : List Op) : WFp rank [] (threadProg ops) := by
+  apply WFp_flatten
+  intro q hq
+  rw [List.mem_map] at hq
+  obtain ⟨op, _, rfl⟩ := hq
+  exact WFp_compile op
+
+theorem WFp_segProg (g : Seg) (h : g.1 = true → ∀ op ∈ g.2, op.isAttend = false) : WFp rank [] (segProg g) := by
+  unfold segProg
+  by_cases hg : g.1 = true
+  · simp only [hg, if_true]
+    refine ⟨by simp, ?_⟩
+    have := WFp_frame rank lkApp (threadProg g.2) [.rel lkApp] [] (WFp_threadProg g.2) ?_ (by simp [WFp])
+    · simpa using this
+    · intro a ha
+      obtain ⟨p, hp, hl⟩ := mem_acqs_flatten _ a ha
+      rw [List.mem_map] at hp
+      obtain ⟨op, hop, rfl⟩ := hp
+      exact acqs_compile op (h hg op hop) a hl
+  · simp only [hg]
+    exact WFp_threadProg g.2
+
+/-- every application thread takes its locks along the rank application mutex < maintenance-thread lock < service lock
+< database lock, well bracketed – PROVIDED the consumer callback runs with no LDM lock held (it does in `attendIter`:
+`callbacks_outside_locks`) and the application does not run an attendance pass while holding its own mutex -/
+theorem WF_sysApp (threads : List (List Seg)) (h : AppOk threads) : WF rank (sysApp threads) := by
+  apply WF_mkSys
+  intro p hp
+  rw [List.mem_map] at hp
+  obtain ⟨segs, hsegs, rfl⟩ := hp
+  apply WFp_flatten
+  intro q hq
+  rw [List.mem_map] at hq
+  obtain ⟨g, hg, rfl⟩ := hq
+  exact WFp_segProg g (h segs hsegs g hg)
+
+theorem blocksOf_segProg (g : Seg) : blocksOf (segProg g) = blocksOf (threadProg g.2) := by
+  unfold segProg
+  split
+  · simp [blocksOf, blocksOf_append]
+  · rfl
+
+/-- the invariant rule for systems with application threads: taking the application mutex adds no block -/
+theorem ldm_inv_app (p : Bool) (P : LSt → Prop) (threads : List (List Seg))
+    (hp : ∀ segs ∈ threads, ∀ g ∈ segs, ∀ op ∈ g.2, op.isPlainUpd = true → p = true)
+    (h0 : P {}) (hB : ∀ f, Blk p f → ∀ x, P x → P (f x)) (sched : List ThreadId) :
+    P (run (sysApp threads) sched).sh := by
+  apply inv_of_blocks P (sysApp threads) h0
+  intro th hth f hf
+  simp only [sysApp, mkSys, List.mem_map] at hth
+  obtain ⟨prog, ⟨segs, hsegs, rfl⟩, rfl⟩ := hth
+  simp only [appProg] at hf
+  obtain ⟨q', hq', hfq⟩ := mem_blocksOf_flatten _ f hf
+  rw [List.mem_map] at hq'
+  obtain ⟨g, hg, rfl⟩ := hq'
+  rw [blocksOf_segProg, threadProg] at hfq
+  obtain ⟨q'', hq'', hfq'⟩ := mem_blocksOf_flatten _ f hfq
+  rw [List.mem_map] at hq''
+  obtain ⟨op, hop, rfl⟩ := hq''
+  exact hB f (compile_blocks p op (hp segs hsegs g hg op hop) f hfq')
+
+/-! ## recognising a deadlocked state -/
+
+/-- some thread is unfinished and every unfinished thread's next instruction is the acquisition of a held lock -/
+def stuckB (s : Sys LSt) : Bool :=
+  s.thr.any (fun th => !th.prog.isEmpty) &&
+  s.thr.all (fun th => match th.prog with
+    | [] => true
+    | .acq l :: _ => !lockFree s l
+    | _ => false)
+
+theorem deadlock_of_stuckB (s : Sys LSt) (h : stuckB s = true) : Deadlock s := by
+  simp only [stuckB, Bool.and_eq_true, List.any_eq_true, List.all_eq_true] at h
+  obtain ⟨⟨th0, hth0, hp0⟩, hall⟩ := h
+  refine ⟨⟨th0, hth0, by intro e; simp [e] at hp0⟩, ?_⟩
+  intro t
+  cases hth : s.thr[t]? with
+  | none => exact step_none_thr s t hth
+  | some th =>
+    have := hall th (List.mem_of_getElem? hth)
+    cases hp : th.prog with
+    | nil => exact step_nil s t th hth hp
+    | cons i p =>
+      rw [hp] at this
+      cases i with
+      | acq l =>
+        rw [step_acq s t th l p hth hp]
+        have hf : lockFree s l = false := by simpa using this
+        simp [hf]
+      | rel l => simp at this
+      | blk f => simp at this
+
 end FlexModel.Conc.Ldm
